@@ -1,5 +1,5 @@
 import Refine.Lemmas.FormatsText
-import Refine.Lemmas.FormatsBin
+import Refine.Lemmas.FormatsC20
 import Refine.Model.FormatsMapbc
 
 /-!
@@ -69,38 +69,6 @@ def snapFieldsFile : Bytes := [2, 0, 0, 0, 0, 0, 0, 0, 0, 194, 235, 11, 0, 0, 0,
 def pltNumptsFile : Bytes := [35, 33, 84, 68, 86, 49, 49, 50, 1, 0, 0, 0, 0, 0, 0, 0, 116, 0, 0, 0, 0, 0, 0, 0, 4, 0, 0, 0, 118, 0, 0, 0, 48, 0, 0, 0, 0, 0, 0, 0, 118, 0, 0, 0, 49, 0, 0, 0, 0, 0, 0, 0, 118, 0, 0, 0, 50, 0, 0, 0, 0, 0, 0, 0, 118, 0, 0, 0, 51, 0, 0, 0, 0, 0, 0, 0, 0, 128, 149, 67, 122, 0, 0, 0, 0, 0, 0, 0, 255, 255, 255, 255, 255, 255, 255, 255, 0, 0, 0, 0, 0, 0, 0, 0, 255, 255, 255, 255, 2, 0, 0, 0, 0, 0, 0, 0, 0, 0, 0, 0, 0, 0, 0, 0, 0, 0, 0, 64, 1, 0, 0, 0, 0, 0, 0, 0, 0, 0, 0, 0, 0, 0, 0, 0, 0, 0, 0, 0, 0, 128, 178, 67, 0, 128, 149, 67, 2, 0, 0, 0, 2, 0, 0, 0, 2, 0, 0, 0, 2, 0, 0, 0, 0, 0, 0, 0, 0, 0, 0, 0, 255, 255, 255, 255, 0, 0, 0, 0, 0, 0, 0, 0, 0, 0, 0, 0, 0, 0, 0, 0, 0, 0, 0, 0, 0, 0, 0, 0, 0, 0, 0, 0, 0, 0, 0, 0, 0, 0, 0, 0, 0, 0, 0, 0, 0, 0, 0, 0, 0, 0, 0, 0, 0, 0, 0, 0, 0, 0, 0, 0, 0, 0, 0, 0, 0, 0, 0, 0, 0, 0, 0, 0, 0, 0, 0, 0, 0, 0, 0, 0, 0, 0, 0, 0, 0, 0, 0, 0, 0, 0, 0, 0, 0, 0, 0, 0, 0, 0, 240, 63, 1, 0, 0, 0, 1, 0, 0, 0, 1, 0, 0, 0]
 /-- a well-formed one-field version-2 `.snap` for a one-vertex grid (52 bytes) -/
 def snapOkFile : Bytes := [2, 0, 0, 0, 0, 0, 0, 0, 1, 0, 0, 0, 0, 0, 0, 0, 0, 0, 0, 0, 0, 0, 0, 0, 20, 0, 0, 0, 0, 0, 0, 0, 1, 0, 0, 0, 0, 0, 0, 0, 255, 255, 255, 255, 0, 0, 0, 0, 0, 0, 240, 63]
-
-/-! ### helper: from per-kind facts to `indicesInRange` -/
-
-/-- cells whose nodes lie in `[0, nnode)` lie in `[0, cnt nnode)`: a cell with a node forces `nnode > 0` -/
-theorem cells_cnt {nnode : Int} {per : Nat} {cs : List (List Int)} (h : ∀ c ∈ cs, nodesIn per 0 nnode c) :
-    cellsInRange ((cnt nnode : Nat) : Int) per cs = true := by
-  apply cellsInRange_of
-  intro c hc
-  obtain ⟨hl, hx⟩ := h c hc
-  refine ⟨hl, fun x hxm => ?_⟩
-  have hb := hx x hxm
-  have hpos : 0 < nnode := by omega
-  have : ((cnt nnode : Nat) : Int) = nnode := by unfold cnt; omega
-  omega
-
-theorem inRange_of_kinds {m : TMesh} {nnode : Int} (hn : m.nodes.length = cnt nnode)
-    (h0 : ∀ c ∈ m.edg, nodesIn 2 0 nnode c) (h1 : ∀ c ∈ m.tri, nodesIn 3 0 nnode c)
-    (h2 : ∀ c ∈ m.qua, nodesIn 4 0 nnode c) (h3 : ∀ c ∈ m.tet, nodesIn 4 0 nnode c)
-    (h4 : ∀ c ∈ m.pyr, nodesIn 5 0 nnode c) (h5 : ∀ c ∈ m.pri, nodesIn 6 0 nnode c)
-    (h6 : ∀ c ∈ m.hex, nodesIn 8 0 nnode c) : indicesInRange m = true := by
-  unfold indicesInRange
-  simp only [hn, Bool.and_eq_true, List.all_eq_true]
-  refine ⟨cells_cnt h0, fun k _ => ?_⟩
-  cases k
-  · exact cells_cnt (per := 3) h1
-  · exact cells_cnt (per := 4) h2
-  · exact cells_cnt (per := 4) h3
-  · exact cells_cnt (per := 5) h4
-  · exact cells_cnt (per := 6) h5
-  · exact cells_cnt (per := 8) h6
-
-theorem none_in {per : Nat} {lo hi : Int} : ∀ c ∈ ([] : List (List Int)), nodesIn per lo hi c := by simp
 
 /-! ### ASCII `.ugrid` -/
 
@@ -217,9 +185,6 @@ theorem fgrid_decode_total (fx : Fix) (ts : List Tok) :
   cases h : decodeFgrid fx ts with
   | ok m => exact .inl ⟨m, rfl⟩
   | error e => exact .inr ⟨e, rfl⟩
-
-theorem vertsOfColumns_length (n : Nat) (f : List UInt64) : (vertsOfColumns n f).length = n := by
-  simp [vertsOfColumns]
 
 /-- `.fgrid` with the index test of the proposed repair -/
 theorem fgrid_fixed_accepted_indices_in_range {fx : Fix} (hfx : fx.index = true) {ts : List Tok} {m : TMesh}
@@ -563,21 +528,6 @@ theorem snap_fixed_fields_fit {fx : BFix} (hfx : fx.snap = true) {nodeMax : Nat}
 
 /-! ### `.msh`: the keyword buffer -/
 
-/-- `fscanf("%s", line)` with `char line[1024]`: a piece of 1024 characters or more has no status in the model (the C
-    writes past the buffer) -/
-theorem msh_long_token (s : String) (h : 1024 ≤ s.length) :
-    decodeMsh Fix.none [.word s, .nl] = .error (.st .undefined) := by
-  have hl : (Tok.word s).len ≥ 1024 := h
-  have hs : scanS Fix.none [.word s, .nl] = .error (.st .undefined) := by
-    unfold scanS
-    simp only [dropWs]
-    rw [if_pos hl]
-    rfl
-  unfold decodeMsh
-  show mshLoop Fix.none _ (_ + 1) _ _ = _
-  unfold mshLoop
-  rw [hs]
-
 /-- finding msh-token-buffer-overflow: the witness file is one 1024-character piece -/
 theorem msh_token_counterexample : decodeMsh Fix.none mshTokenFile = .error (.st .undefined) :=
   msh_long_token _ (by rw [String.length_ofList, List.length_replicate])
@@ -599,22 +549,6 @@ theorem mapbc_decode_total (ts : List Tok) :
   cases h : readMapbc ts with
   | ok m => exact .inl ⟨m, rfl⟩
   | error e => exact .inr ⟨e, rfl⟩
-
-theorem mapbcEntries_length {n : Nat} {ts : List Tok} {es : List (Int × Int)} (h : mapbcEntries n ts = .ok es) :
-    es.length = n := by
-  induction n generalizing ts es with
-  | zero => simp [mapbcEntries] at h; simp [h]
-  | succ n ih =>
-    simp only [mapbcEntries] at h
-    split at h; · cases h
-    split at h; · cases h
-    split at h; · cases h
-    rename_i rest hsk
-    cases h4 : mapbcEntries n rest with
-    | error e => simp [h4] at h
-    | ok es' =>
-      simp only [h4, Except.ok.injEq] at h
-      rw [← h, List.length_cons, ih h4]
 
 /-- **accepted_counts_fit**, `.mapbc`: an accepted map holds the declared number of `id type` lines (a count the file does
     not back — missing lines, 2^31-1, 10^10 — ends in REF_FAILURE at the first missing number; names are read by a
@@ -655,63 +589,6 @@ theorem mapbc_walls_spec {ts : List Tok} {d : List (Int × Int)} (h : readMapbc 
 example : readMapbc [.int 3, .nl, .int 2, .int 5000, .word "farfield", .nl, .int 7, .int 3000, .word "inflow", .nl,
     .int 2, .int 4000, .word "wall", .nl] = .ok [(2, 4000), (7, 3000)] ∧ walls [(2, 4000), (7, 3000)] = [2] := by
   decide +kernel
-
-/-- only two things stop the `.mapbc` reader model: REF_FAILURE, or an input outside the token abstraction -/
-def Benign (e : Err) : Prop := e = .st .failure ∨ e = .unmodelled
-
-theorem scanD_err {ts : List Tok} {e : Err} (h : scanD ts = .error e) : e = .unmodelled := by
-  unfold scanD at h
-  split at h
-  all_goals first
-    | (cases h; done)
-    | (cases h; rfl)
-    | (split at h <;> first | (cases h; done) | (cases h; rfl))
-
-theorem rdD_err {ts : List Tok} {e : Err} (h : rdD ts = .error e) : Benign e := by
-  unfold rdD at h
-  split at h
-  · rename_i e' he
-    cases h
-    exact .inr (scanD_err he)
-  · cases h; exact .inl rfl
-  · cases h
-
-theorem lineDs_err {k : Nat} {l : List Tok} {e : Err} (h : lineDs k l = .error e) : e = .unmodelled := by
-  induction k generalizing l with
-  | zero => simp [lineDs] at h
-  | succ k ih =>
-    simp only [lineDs] at h
-    split at h
-    · rename_i e' he; cases h; exact scanD_err he
-    · cases h
-    · rename_i x l' _
-      split at h
-      · rename_i e' he; cases h; exact ih he
-      · cases h
-      · cases h
-
-theorem lineD_err {l : List Tok} {e : Err} (h : lineD l = .error e) : Benign e := by
-  unfold lineD at h
-  split at h
-  · rename_i e' he; cases h; exact .inr (lineDs_err he)
-  · cases h; exact .inl rfl
-  · cases h
-
-theorem mapbcEntries_err {n : Nat} {ts : List Tok} {e : Err} (h : mapbcEntries n ts = .error e) : Benign e := by
-  induction n generalizing ts with
-  | zero => simp [mapbcEntries] at h
-  | succ n ih =>
-    simp only [mapbcEntries] at h
-    split at h
-    · rename_i e' he; cases h; exact rdD_err he
-    · split at h
-      · rename_i e' he; cases h; exact rdD_err he
-      · split at h
-        · cases h; exact .inr rfl
-        · rename_i rest _
-          split at h
-          · rename_i e' he; cases h; exact ih he
-          · cases h
 
 /-- **no hazard in the `.mapbc` reader**: 5000-character names, a declared count of 2^31-1 or 10^10, missing lines, words
     where numbers belong — every malformed map is refused with REF_FAILURE (or is outside the token abstraction:
